@@ -80,14 +80,19 @@ func (eth *Ethernet) SerializeTo(b gopacket.SerializeBuffer, opts gopacket.Seria
 	copy(bytes, eth.DstMAC)
 	copy(bytes[6:], eth.SrcMAC)
 	if eth.Length != 0 || eth.EthernetType == EthernetTypeLLC {
-		if opts.FixLengths {
-			eth.Length = uint16(len(payload))
-		}
+		// Check the fields as given before fixing the length, so that a
+		// rejected layer is not modified and is rejected again next time.
 		if eth.EthernetType != EthernetTypeLLC {
 			return fmt.Errorf("ethernet type %v not compatible with length value %v", eth.EthernetType, eth.Length)
-		} else if eth.Length > 0x0600 {
-			return fmt.Errorf("invalid ethernet length %v", eth.Length)
 		}
+		length := int(eth.Length)
+		if opts.FixLengths {
+			length = len(payload)
+		}
+		if length > 0x0600 {
+			return fmt.Errorf("invalid ethernet length %v", length)
+		}
+		eth.Length = uint16(length)
 		binary.BigEndian.PutUint16(bytes[12:], eth.Length)
 	} else {
 		binary.BigEndian.PutUint16(bytes[12:], uint16(eth.EthernetType))
